@@ -745,6 +745,7 @@ static void fork_child_epilogue(int h, long r);
 
 /* what the application left in errno before the call is its own business: no result or effect of a call may depend on it.
    Every call is entered with a different left-over value (fixed per position in the script, so a re-run repeats it). */
+static char kg_hitfn[16]; static long kg_hitr;
 static int ncalls_script;
 static const int stale_errno[] = { EBADF, 0, EINTR, EAGAIN, ENOENT, EPIPE, EMFILE, EINVAL };
 
@@ -1265,6 +1266,7 @@ static void finish_keepgoing(int hung)
   j_put(v, "kg", j_mkint(1)); j_put(v, "hung", j_mkint(hung)); j_put(v, "gcount", j_mkint(K->gcount)); j_put(v, "gkind", j_mkint(K->gfault_kind));
   j_put(v, "hit", j_mkint(K->fault_hits)); j_put(v, "nfd", j_mkint(sk_nfds(0))); j_put(v, "nalloc", j_mkint(sk_nalloc())); j_put(v, "mon", mon);
   j_put(v, "failed_children_unreaped", j_mkint(unreaped));
+  j_put(v, "hitfn", j_mkstr(kg_hitfn)); j_put(v, "hitr", j_mkint(kg_hitr));
   emit(v);
   __real__exit(10);
 }
@@ -1316,7 +1318,9 @@ static void run_script(jv *s)
           }
         }
       }
+      int gk0 = K->gfault_kind;
       long r = do_call(st, &extra);
+      if (keep_going && gk0 == 0 && K->gfault_kind != 0) { snprintf(kg_hitfn, sizeof kg_hitfn, "%s", j_str(st, "fn", "")); kg_hitr = r; }   /* the call during which the script-wide fault struck */
       ncalls++;
       jv *ret = pos < s->n ? s->a[pos] : NULL;
       if (trace) {
@@ -1525,7 +1529,7 @@ static void run_line(char *line, int idx)
   const char *err;
   j_reset();
   trace = NULL; cur_call = NULL; cur_keys = NULL; soft_div = NULL; soft_offset = 0; soft_offset_fd = 0; in_conc = 0; drop_kept();
-  errno = 0; ncalls_script = 0;   /* (every script starts as its replay alone would: nothing left over from the previous script of the batch) */
+  errno = 0; ncalls_script = 0; kg_hitfn[0] = 0; kg_hitr = 0;   /* (every script starts as its replay alone would: nothing left over from the previous script of the batch) */
   if (!strncmp(line, "<<\"BEH\", \"", 10)) {
     /* TLC PrintT of <<"BEH", ToJson(hist)>>: a TLA+ string literal; undo its escaping in place */
     char *o = line, *q = line + 10;
